@@ -85,6 +85,8 @@ class _Tx:
 
     # ------------------------------------------------------------------ typing
     def type_of(self, e) -> str:
+        if ast.unparse(e) in getattr(self.spec, "atoms", {}):
+            return LIN
         a = self.self_attr(e)
         if a is not None:
             if a not in self.ftype:
@@ -107,7 +109,7 @@ class _Tx:
             if isinstance(e.op, (ast.Add, ast.Sub)):
                 lt, rt = self.type_of(e.left), self.type_of(e.right)
                 return LOG if (lt == LOG and rt == LOG) else LIN
-            if isinstance(e.op, (ast.Mult, ast.Div)):
+            if isinstance(e.op, (ast.Mult, ast.Div, ast.Pow)):
                 return LIN
             self.fail(e, "operator outside the fragment")
         cn = self.call_name(e)
@@ -120,6 +122,9 @@ class _Tx:
     # ------------------------------------------------------------------ expressions
     def expr(self, e, want: str) -> str:
         """Lean term for `e` read as a `want` quantity (LOG: its exponential; LIN: itself)"""
+        if ast.unparse(e) in getattr(self.spec, "atoms", {}):
+            t = self.spec.atoms[ast.unparse(e)]
+            return t if want == LIN else f"ex ({t})"
         ty = self.type_of(e)
         if ty == NAT:
             if want != LIN:
@@ -128,11 +133,7 @@ class _Tx:
         if isinstance(e, ast.Constant):
             if want != LIN:
                 self.fail(e, "a literal used as a log-domain number")
-            v = e.value
-            if float(v) != int(v):
-                self.fail(e, "non-integer literal")
-            lit = lambda k: f"({k} : K)" if k in (0, 1) else f"(({k} : Nat) : K)"   # core Lean: only 0 and 1 are OfNat
-            return lit(int(v)) if int(v) >= 0 else f"(-{lit(-int(v))})"
+            return _lit(e.value)
         if isinstance(e, (ast.Name, ast.Attribute, ast.Subscript)):
             t = self.atom(e)
             if ty == want:
@@ -143,9 +144,7 @@ class _Tx:
                 if ty != LOG:
                     return f"ex ({self.expr(e, LIN)})"
                 return f"(1 / {self.expr(e.operand, LOG)})"
-            if ty == LOG:
-                return f"lg ({self.expr(e, LOG)})"
-            return f"(-{self.expr(e.operand, LIN)})"
+            return f"(-{self.expr(e.operand, LIN)})"       # read as a real: minus the operand read as a real (−lg a, never lg (1/a))
         if isinstance(e, ast.BinOp):
             if isinstance(e.op, (ast.Add, ast.Sub)):
                 if want == LOG:
@@ -156,6 +155,12 @@ class _Tx:
                 # wanted LIN: the operands are read as LIN one by one (lg a - lg b, never lg (a / b))
                 op = "+" if isinstance(e.op, ast.Add) else "-"
                 return f"({self.expr(e.left, LIN)} {op} {self.expr(e.right, LIN)})"
+            if isinstance(e.op, ast.Pow):
+                if not (isinstance(e.right, ast.Constant) and e.right.value == 2):
+                    self.fail(e, "power other than a square")
+                b = self.expr(e.left, LIN)
+                t = f"({b} * {b})"
+                return t if want == LIN else f"ex {t}"
             op = "*" if isinstance(e.op, ast.Mult) else "/"
             t = f"({self.expr(e.left, LIN)} {op} {self.expr(e.right, LIN)})"
             return t if want == LIN else f"ex {t}"
@@ -386,6 +391,8 @@ class FnSpec:
     returns: Sequence[str]                        # type of each returned component
     locals_: Dict[str, str] = field(default_factory=dict)
     doc: str = ""
+    defaults: Sequence[str] = ()                  # exact text of the parameter defaults the model assumes are passed explicitly
+    atoms: Dict[str, str] = field(default_factory=dict)   # exact text of a real constant (np.pi) -> name of an extra parameter
 
 
 def translate_fn(repo, spec: FnSpec) -> Tuple[str, dict]:
@@ -394,10 +401,12 @@ def translate_fn(repo, spec: FnSpec) -> Tuple[str, dict]:
     text = (Path(repo) / spec.source).read_text()
     fn = find_function(ast.parse(text), spec.func, None)
     got = [a.arg for a in fn.args.args]
-    if got != [p for p, _, _ in spec.params] or fn.args.vararg or fn.args.kwarg or fn.args.kwonlyargs or fn.args.defaults:
+    if got != [p for p, _, _ in spec.params] or fn.args.vararg or fn.args.kwarg or fn.args.kwonlyargs \
+            or [ast.unparse(d) for d in fn.args.defaults] != list(spec.defaults):
         raise TranslationError(f"{spec.func}: signature {got} differs from the modelled one {[p for p, _, _ in spec.params]}")
     ls = LogSpec(source=spec.source, cls="", func=spec.func, name=spec.name, struct="", fields=[], params=spec.params,
                  locals_=dict(spec.locals_))
+    ls.atoms = dict(spec.atoms)
     tx = _Tx(ls)
     body = [s_ for s_ in fn.body if not (isinstance(s_, ast.Expr) and isinstance(s_.value, ast.Constant))]
     if not body or not isinstance(body[-1], ast.Return) or body[-1].value is None:
@@ -408,7 +417,7 @@ def translate_fn(repo, spec: FnSpec) -> Tuple[str, dict]:
     if len(comps) != len(spec.returns):
         raise TranslationError(f"{spec.func}: returns {len(comps)} values, the model has {len(spec.returns)}")
     terms = [tx.expr(c, ty) for c, ty in zip(comps, spec.returns)]
-    params = " ".join(f"({ln} : K)" for _, ln, _ in spec.params)
+    params = " ".join([f"({a} : K)" for a in dict.fromkeys(spec.atoms.values())] + [f"({ln} : K)" for _, ln, _ in spec.params])
     rty = " × ".join("K" for _ in terms)
     lets = "".join(f"  {ln}\n" for ln in tx.lines)
     seg = ast.get_source_segment(text, fn) or ""
